@@ -247,6 +247,18 @@ func astModifies(sql string) (mod bool, ok bool) {
 	return false, true
 }
 
+// ruleError tells whether an error is the read-only rule's own refusal
+// (checkSQLAllowed: "write DML is now allowed by read user"), as opposed to any other failure.
+func ruleError(e *rawclient.Error) bool {
+	l := strings.ToLower(e.Message)
+	for _, m := range []string{"read user", "read-only", "read only", "readonly"} {
+		if strings.Contains(l, m) {
+			return true
+		}
+	}
+	return false
+}
+
 func userKey(u int) string { return []string{"ro", "rosplit"}[u%2] }
 
 func checkCase(c c21Case) (o pbt.Outcome) {
@@ -270,7 +282,7 @@ func checkCase(c c21Case) (o pbt.Outcome) {
 	users := []routefix.User{{Key: "ro", RWFlag: models.ReadOnly}, {Key: "rosplit", RWFlag: models.ReadOnly, RWSplit: models.ReadWriteSplit}}
 	env, err := routefix.Setup("c21n", specs, users, func(ns *models.Namespace) { ns.SupportMultiQuery = true })
 	if err != nil {
-		o.Skip = "fixture: " + err.Error()
+		o.Skip = "fixture could not be set up (inconclusive)"
 		return
 	}
 	defer env.Close()
@@ -280,7 +292,7 @@ func checkCase(c c21Case) (o pbt.Outcome) {
 	}
 	cl, err := env.Dial(userKey(c.User), "db", caps)
 	if err != nil {
-		o.Skip = "dial: " + err.Error()
+		o.Skip = "client could not connect to the proxy (inconclusive)"
 		return
 	}
 	defer cl.Close()
@@ -292,7 +304,7 @@ func checkCase(c c21Case) (o pbt.Outcome) {
 	case dQuery:
 		r, err := cl.Exec(text)
 		if err != nil {
-			o.Skip = "session broke: " + err.Error()
+			o.Skip = "transport error towards the proxy (inconclusive)"
 			return
 		}
 		clientErr = r.Err
@@ -309,7 +321,7 @@ func checkCase(c c21Case) (o pbt.Outcome) {
 		o.Labels = append(o.Labels, fmt.Sprintf("multi_pos_%d", c.Pos%3))
 		rs, err := cl.Query(strings.Join(pieces, ";"))
 		if err != nil {
-			o.Skip = "session broke: " + err.Error()
+			o.Skip = "transport error towards the proxy (inconclusive)"
 			return
 		}
 		for _, r := range rs {
@@ -320,7 +332,7 @@ func checkCase(c c21Case) (o pbt.Outcome) {
 	case dPrepared:
 		st, perr, err := cl.Prepare(text)
 		if err != nil {
-			o.Skip = "session broke in prepare: " + err.Error()
+			o.Skip = "transport error towards the proxy (inconclusive)"
 			return
 		}
 		if perr != nil {
@@ -336,12 +348,18 @@ func checkCase(c c21Case) (o pbt.Outcome) {
 		}
 		r, err := cl.Execute(st, params)
 		if err != nil {
-			o.Skip = "session broke in execute: " + err.Error()
+			o.Skip = "transport error towards the proxy (inconclusive)"
 			return
 		}
 		clientErr, stage = r.Err, " at execute"
 	}
 
+	if clientErr != nil && routefix.InfraTrouble(clientErr.Message) {
+		// the proxy could not get a backend connection in time (loaded machine): neither a
+		// rejection by the read-only rule nor an execution
+		o.Skip = "the proxy reported backend connection trouble (inconclusive)"
+		return
+	}
 	var hits []fakemysql.Event
 	for _, ev := range env.Cl.Events() {
 		if ev.Kind == "query" && strings.Contains(strings.ToLower(ev.SQL), tag) {
@@ -355,8 +373,12 @@ func checkCase(c c21Case) (o pbt.Outcome) {
 
 	if !mod {
 		// control: the rule must not reject statements that cannot modify anything
+		if clientErr != nil && ruleError(clientErr) {
+			o.Violation = fmt.Sprintf("read-only user %s, %s: non-modifying statement %q was rejected by the read-only rule%s: %v", userKey(c.User), deliveryNames[deliv], text, stage, clientErr)
+			return
+		}
 		if clientErr != nil {
-			o.Violation = fmt.Sprintf("read-only user %s, %s: non-modifying statement %q was rejected%s: %v", userKey(c.User), deliveryNames[deliv], text, stage, clientErr)
+			o.Labels = append(o.Labels, "control_failed_for_another_reason")
 			return
 		}
 		if len(hits) == 0 {
@@ -414,12 +436,9 @@ func classify(c c21Case) string {
 	case hidden:
 		// F3: whatever the kind, the read-only rule never learns what the statement is.
 		return "C21-F3"
-	case kind == kReplace || isDDL(kind):
-		// F1: parser.Preview names the statement correctly (StmtReplace / StmtDDL) but
-		// isSQLNotAllowedByUser lists only INSERT, UPDATE and DELETE.
-		return "C21-F1"
 	}
-	// a visible INSERT / UPDATE / DELETE that is executed has no known explanation
+	// a visible INSERT / UPDATE / DELETE / REPLACE / DDL that is executed has no known
+	// explanation (the classifier of the fixed C21-F1 is gone)
 	return ""
 }
 
